@@ -2,9 +2,12 @@
 //! from stdin (one per line) and prints its results as Coq terms, one per line.
 //! Every call into the library is wrapped in `catch_unwind`; the whole binary runs in a child
 //! process of the check so that aborts and native stack overflows are observable too.
+//!
+//! A command `foo-bar` lives in `src/cmd_foo_bar.rs` and exposes
+//! `pub fn run(args: &[String], lines: &mut dyn Iterator<Item = String>, out: &mut dyn Write)`.
 
-mod cmd_disasm;
 pub mod util;
+include!(concat!(env!("OUT_DIR"), "/cmds.rs"));
 
 use std::io::{self, BufRead, Write};
 
@@ -19,13 +22,10 @@ fn main() {
     let stdin = io::stdin();
     let stdout = io::stdout();
     let mut out = io::BufWriter::new(stdout.lock());
-    let lines = stdin.lock().lines().map(|l| l.expect("stdin"));
-    match args[1].as_str() {
-        "disasm" => cmd_disasm::run(lines, &mut out),
-        other => {
-            eprintln!("unknown command {other}");
-            std::process::exit(2);
-        }
+    let mut lines = stdin.lock().lines().map(|l| l.expect("stdin"));
+    if !dispatch(args[1].as_str(), &args[2..], &mut lines, &mut out) {
+        eprintln!("unknown command {}", args[1]);
+        std::process::exit(2);
     }
     out.flush().unwrap();
 }
